@@ -4,7 +4,9 @@ import (
 	"fmt"
 	"os"
 
+	"owverif.local/verif/checks/c06"
 	"owverif.local/verif/checks/c10"
+	"owverif.local/verif/checks/c11"
 	"owverif.local/verif/checks/c15"
 	"owverif.local/verif/checks/c16"
 	"owverif.local/verif/checks/c19"
@@ -12,7 +14,9 @@ import (
 )
 
 var registry = map[string]func() *vf.Check{
+	"C06": c06.Spec,
 	"C10": c10.Spec,
+	"C11": c11.Spec,
 	"C15": c15.Spec,
 	"C16": c16.Spec,
 	"C19": c19.Spec,
